@@ -118,7 +118,25 @@ where
         HMC::<T, B, G>::new(target.clone(), init2, t(eps), l).set_seed(seed)
     });
     let mut out = vec![];
+    // every draw the sampler is expected to take from its seeded generator, replayed from an identically seeded one:
+    // per step n_chains*dim standard normals, then n_chains uniforms (values in T, rendered as f64 bits)
+    let mut replay_rng = {
+        use rand::SeedableRng;
+        rand::rngs::SmallRng::seed_from_u64(seed)
+    };
+    let mut draw_events: Vec<u64> = vec![];
     for _ in 0..k {
+        {
+            use rand::Rng;
+            for _ in 0..n_chains * dim {
+                let z: T = replay_rng.sample(rand_distr::StandardNormal);
+                draw_events.push(num_traits::ToPrimitive::to_f64(&z).unwrap().to_bits());
+            }
+            for _ in 0..n_chains {
+                let u: T = replay_rng.random::<T>();
+                draw_events.push(num_traits::ToPrimitive::to_f64(&u).unwrap().to_bits());
+            }
+        }
         let mut probe = s.clone();
         verif::start();
         s.step();
@@ -164,7 +182,7 @@ where
         }
         out.push(rec);
     }
-    json!({"steps": out, "target": extra})
+    json!({"steps": out, "target": extra, "draw_events": draw_events})
 }
 
 fn steps<T, B>(c: &Value) -> Value
